@@ -30,11 +30,11 @@ void compare(eng::Ctx& ctx, const std::string& dir, const ref::TA& V, int n,
 			return;
 		}
 		const bool exp = want.count({q, r}) > 0;
-		if (got && !exp) extra += "(" + std::to_string(q) + "," + std::to_string(r) + ")";
-		if (!got && exp) missing += "(" + std::to_string(q) + "," + std::to_string(r) + ")";
+		if (got && !exp && extra.size() < 200) extra += "(" + std::to_string(q) + "," + std::to_string(r) + ")";
+		if (!got && exp && missing.size() < 200) missing += "(" + std::to_string(q) + "," + std::to_string(r) + ")";
 	}
 	ctx.count("relations_compared");
-	if (!extra.empty()) ctx.fail("sim:" + dir + ":too-big", dir + " simulation relates " + extra + " which the greatest simulation does not; automaton " + V.str());
+	if (!extra.empty()) ctx.fail("sim:" + dir + ":too-big", dir + " simulation relates " + extra + " which the greatest simulation does not; automaton " + V.str().substr(0, 1500));
 	if (!missing.empty()) ctx.fail("sim:" + dir + ":too-small", dir + " simulation lacks " + missing + " of the greatest simulation; automaton " + V.str());
 }
 
@@ -47,13 +47,40 @@ void harness::run_case(const eng::Raw& raw, eng::Ctx& ctx)
 	lim.arity3 = true;
 	gen::TACase c = gen::decode_ta(raw, lim, true);
 	ctx.small_case(true);
+	// 1/24 of the cases are LARGE (20..150 states): a backbone of unary / binary rules through all states (so the
+	// automaton is trimmed) plus the generated rules folded in; relation tables grow in powers of two from 16 and the
+	// simulation engine keeps bit masks in words of 64
+	const bool large = (c.header[7] % 24 == 23);
+	if (large) {
+		const int n = 20 + static_cast<int>(c.header[6] % 131);
+		ref::TA L;
+		L.add(0 /* a */, {}, 0);
+		for (int i = 1; i < n; ++i) {
+			const uint64_t m = gen::mix(c.header[5], static_cast<uint64_t>(i));
+			if (m % 3 == 0) L.add(6 /* f */, {i - 1, static_cast<int>((m / 3) % static_cast<uint64_t>(i))}, i);
+			else L.add((m % 3 == 1) ? 4 /* g */ : 5 /* h */, {i - 1}, i);
+			if (m % 11 == 0) L.add(1 /* b */, {}, i);
+		}
+		for (auto& r : c.A.rules) {     // the generated rules, stretched over the large state space
+			ref::Rule x = r;
+			x.par = (x.par * 17) % n;
+			for (auto& ch : x.ch) ch = (ch * 13) % n;
+			L.rules.insert(x);
+		}
+		L.finals.insert(n - 1);
+		for (int f : c.A.finals) L.finals.insert((f * 29) % n);
+		c.A = L;
+		ctx.tag("large:20-150-states");
+	}
 
 	int nd = 0, nu = 0;
 	const ref::TA D = compact(c.A, c.header[3], nd);           // downward: arbitrary automaton
 	const ref::TA U = compact(c.A.trim(), c.header[5], nu);    // upward: trimmed (the stated precondition)
 	std::vector<ref::Rule> orderD = gen::shuffled(D.rules, c.header[4]);
 	std::vector<ref::Rule> orderU = gen::shuffled(U.rules, c.header[4] / 4);
-	ctx.describe("downward on\n" + ref::to_timbuk(D, "D", {}, &orderD) + "upward on\n" + ref::to_timbuk(U, "U", {}, &orderU));
+	if (large) ctx.describe("large automaton, seeds " + std::to_string(c.header[5]) + "/" + std::to_string(c.header[6]) + ", " + std::to_string(nd) + " states, " +
+		std::to_string(D.rules.size()) + " rules; first rules: " + D.str().substr(0, 400));
+	else ctx.describe("downward on\n" + ref::to_timbuk(D, "D", {}, &orderD) + "upward on\n" + ref::to_timbuk(U, "U", {}, &orderU));
 
 	std::set<int> uniD, uniU;
 	for (int i = 0; i < nd; ++i) uniD.insert(i);
